@@ -36,7 +36,8 @@ class C11(PropBase):
     REQUIRED_REACH = ("midpdu_between_calls", "two_in_flight", "response_while_request_in_pipe", "quiescence_checked",
                       "in_progress_probe_ids", "sasl_multistep_completed", "bind_after_search_done", "terminated_by_unbind",
                       "terminated_by_notice", "custom_types_on_wire", "odd_integers_on_wire", "pdu_over_127", "pdu_over_255",
-                      "entries_interleaved_two_searches", "empty_vs_absent_optional", "partial_drain")
+                      "entries_interleaved_two_searches", "empty_vs_absent_optional", "partial_drain", "refused_attempt_mid_conversation",
+                      "idle_probe")
 
     def init_op(self, rng):
         customs = [t for t in ("CustomAuth", "CustomControl", "CustomFilter") if rng.random() < 0.35]
@@ -47,6 +48,7 @@ class C11(PropBase):
                 "customs": customs, "personality": pers, "odd_ints": rng.random() < 0.3,
                 "big": rng.choice([0.03, 0.1, 0.3]), "huge": rng.choice([0.0, 0.0, 0.0, 0.01]),
                 "max_out": rng.choice([1, 2, 4, 8]), "term_p": rng.choice([0.0, 0.0, 0.01, 0.03]),
+                "attempt_p": rng.choice([0.0, 0.05, 0.15]),
                 "quiesce_every": rng.choice([15, 30, 60, 1000]), "starve": rng.choice(["c", "s"]),
                 "chunk": rng.choice(["mixed", "mixed", "byte", "whole"])}
 
@@ -70,11 +72,17 @@ class C11(PropBase):
         init = w.init
         g = self._gen(st, rng)
         se = w.s[who]
+        attempt = init.get("attempt_p", 0.0)
         if who == "c":
-            cc = policy.client_call(g, se.model, illegal_p=0.0, allow_unbind=init["term_p"], max_out=init["max_out"])
+            cc = policy.client_call(g, se.model, illegal_p=attempt, allow_unbind=init["term_p"], max_out=init["max_out"])
             if cc is None:
                 return None
             return {"op": "call", "who": "c", "m": cc[0], "a": cc[1]}
+        if attempt and rng.random() < attempt and se.model.st != "CL":
+            # an attempt the session must refuse (wrong id / wrong state); it has no effect on the conversation
+            m, a, _cls = policy.server_any_call(g, se.model, p_unbind=0.0)
+            if se.model.call_expect(m, a) == "refuse":
+                return {"op": "call", "who": "s", "m": m, "a": a}
         sc = policy.server_legal_call(g, se.model, p_term=init["term_p"])
         if sc is None:
             return None
@@ -196,8 +204,21 @@ class C11(PropBase):
             return
         m, a = op["m"], op.get("a", {})
         pre = se.model.clone()
-        if se.model.call_expect(m, a) != "accept":
-            return  # outside the premise (can only happen in a shrunk op list): not executed
+        expect = se.model.call_expect(m, a) if (who == "c" or m == "unbind" or isinstance(a.get("id"), int)) else None
+        if expect == "refuse" and se.model.st != "CL":
+            # an attempted call that the session refuses: "each application only makes calls its session accepts" -
+            # the refused attempt must leave the conversation untouched
+            ev = w.apply(op)
+            if ev.get("noop"):
+                return
+            st.x["since_q"] += 1
+            st.label("attempt:%s:%s" % (who, m))
+            st.hit("refused_attempt_mid_conversation")
+            if ev["accepted"] or not ev["state_sync"]:
+                self._bail(st, "attempted %s.%s: accepted=%s state %s (C08/C10's statement)" % (who, m, ev["accepted"], ev["st_after"]))
+            return
+        if expect != "accept":
+            return  # outside the premise (kind-mismatched response, or a shrunk op list): not executed
         if m in ("search_result_entry", "search_result_reference", "search_result_done") and pre.kinds.get(a.get("id")) != "SearchRequest":
             return
         ev = w.apply(op)
@@ -403,6 +424,15 @@ class C11(PropBase):
         # agreement on operations in progress, by probes on deep copies
         if c.mbuf or s.mbuf:
             return
+        if cs != "CLOSED" and ss != "CLOSED":
+            ce = w.probe_client_idle("c")
+            se_ = w.probe_server_idle("s")
+            st.hit("idle_probe")
+            if ce != se_:
+                raise Violation(P, "in-progress-disagreement", "all bytes delivered: the client %s a new bind (operations in progress: "
+                                "%s), the server %s a BindRequest (operations outstanding: %s)" % (
+                                    "accepts" if ce else "refuses", "none" if ce else "some", "accepts" if se_ else "refuses",
+                                    "none" if se_ else "some"))
         ids = sorted(set(st.x["ids"]))[-12:] + [max(st.x["ids"] + [0]) + 1]
         for mid in ids:
             pc = w.probe_in_progress("c", mid)
